@@ -89,14 +89,14 @@ Definition err_eqb (a b : err) : bool :=
 
 (* what the client created before the handshake (initMemManager): two memory objects with
    identities qobj / bobj (inode or memfd), named by the two paths *)
-(* [cgen] / [sgen]: the highest protocol generation the client / the server advertises in the version
-   exchange.  For this code base both are c_maxSupportProtoVersion; a NEWER peer (4, 5, ... 255) that
-   otherwise follows the exchange is the same machine with a larger number: it announces its own highest
-   version and both take the minimum. *)
+(* [sgen]: the highest protocol generation the SERVER advertises in the version exchange.  For this code
+   base it is c_maxSupportProtoVersion; a NEWER server (4, 5, ... 255) that otherwise follows the exchange
+   is the same machine with a larger number: it announces its own highest version and both ends take the
+   minimum.  The client is this code base's: generation 2 (file mapping, no exchange) or 3 (memfd). *)
 Record config := {
   mt : memtype; unix : bool;
   qpath : bytes; bpath : bytes; qobj : Z; bobj : Z;
-  cgen : Z; sgen : Z }.
+  sgen : Z }.
 
 (* checkEventValid *)
 Definition check_valid (h : hdr) : option err :=
@@ -217,7 +217,7 @@ Definition cstep (cfg : config) (pc : cpc_t) (ver : Z) (inbox : list frame) (pee
                   [FBytes (generate c_protoVersion c_typeShareMemoryByFilePath (qpath cfg) (bpath cfg))]
                   (CDone ROk))
       | MMemfd =>
-          Some (cwrite peer_open ver inbox [] [hdr8 (cgen cfg) c_typeExchangeProtoVersion] CWaitVer)
+          Some (cwrite peer_open ver inbox [] [hdr8 c_maxSupportProtoVersion c_typeExchangeProtoVersion] CWaitVer)
       end
   | CWaitVer =>
       match read_frame inbox peer_open with
@@ -228,7 +228,7 @@ Definition cstep (cfg : config) (pc : cpc_t) (ver : Z) (inbox : list frame) (pee
           match expect h c_typeExchangeProtoVersion with
           | Some e => Some (cfail ver rest [FBytes whole] e)
           | None =>
-              let chosen := Z.min (cgen cfg) (h_ver h) in
+              let chosen := Z.min c_maxSupportProtoVersion (h_ver h) in
               if chosen =? c_initializerVersion_2 then   (* V2 initialiser on the client: file-path message, no ack *)
                 Some (cwrite peer_open c_initializerVersion_2 rest [FBytes whole]
                         [FBytes (generate c_initializerVersion_2 c_typeShareMemoryByFilePath (qpath cfg) (bpath cfg))] (CDone ROk))
@@ -325,9 +325,10 @@ Definition sstep (g : Z) (f : list mapping) (pc : spc_t) (ver : Z) (inbox : list
                 if h_type h =? c_typeShareMemoryByFilePath
                 then handle_file f c_initializerVersion_2 h whole rest peer_open []
                 else Some (sfail c_initializerVersion_2 None rest [FBytes whole] (RErr EUnexpectedType))
-              else if c_initializerVersion_3 <=? Z.min (h_ver h) g then
-                (* serverGetProtocolInitializer serves a client of a newer generation with the initialiser of
-                   its own highest version (g = maxSupportProtoVersion = 3 here) *)
+              else if (c_initializerVersion_3 <=? h_ver h) && (h_ver h <=? g) then
+                (* serverGetProtocolInitializer looks the initialiser up by the announced version: a server of
+                   generation g knows 3 .. g (this code base: g = maxSupportProtoVersion = 3, so exactly 3);
+                   anything above is "not support the protocol version" — see the last branch *)
                 if h_type h =? c_typeExchangeProtoVersion then
                   let v := Z.min (h_ver h) g in
                   if peer_open
@@ -525,14 +526,14 @@ Definition run (cfg : config) (sch : list label) (w : world) : world := fold_lef
 
 (* the version both ends must agree on: the client announces 2 (file, no exchange) or its highest *)
 Definition client_version (cfg : config) : Z :=
-  match mt cfg with MFile => c_protoVersion | MMemfd => cgen cfg end.
+  match mt cfg with MFile => c_protoVersion | MMemfd => c_maxSupportProtoVersion end.
 Definition negotiated (cfg : config) : Z := Z.min (client_version cfg) (sgen cfg).
 
 (* what the honest ends ever write (used by the proofs and by the correspondence) *)
 Definition cscript (cfg : config) : list frame :=
   match mt cfg with
   | MFile => [FBytes (generate c_protoVersion c_typeShareMemoryByFilePath (qpath cfg) (bpath cfg))]
-  | MMemfd => [hdr8 (cgen cfg) c_typeExchangeProtoVersion;
+  | MMemfd => [hdr8 c_maxSupportProtoVersion c_typeExchangeProtoVersion;
                FBytes (generate c_initializerVersion_3 c_typeShareMemoryByMemfd (qpath cfg) (bpath cfg));
                FFds [bobj cfg; qobj cfg]]
   end.
